@@ -638,6 +638,13 @@ class Gen:
             b = ("const", rng.choice([2, 3, -2])) if op in ("floordiv", "mod") else self.int_expr(depth - 1)
             if rng.random() < 0.3 and op in ("add", "sub", "mul"):
                 a, b = ("const", rng.choice([0, 1, 2, 3])), a          # reflected operators, x+0 / 1*x shortcuts
+            elif rng.random() < 0.25:
+                # the identity element of some operator (0, 1, 0.0, 1.0) on either side of ANY operator: the code
+                # simplifies x+0, 0+x, x-0, x*1, 1*x, x/1, x**1 and must simplify nothing else (0-x, 1/x, 1-x, ...)
+                op = rng.choice(["add", "sub", "sub", "mul", "div", "pow", "floordiv", "mod"])
+                unit = ("const", rng.choice([0, 1, 0, 1, Fraction(0), Fraction(1)]))
+                x = a if a[0] != "const" else self.prim(0)
+                a, b = (unit, x) if rng.random() < 0.5 else (x, unit)
             return ("bin", op, a, b)
         if k == "unary":
             return (rng.choice(["neg", "abs"]), self.int_expr(depth - 1))
